@@ -18,6 +18,9 @@ CHECKS = {
  "C08": dict(cat="proof", tech="machine-checked proof in Coq + extracted-model/implementation correspondence with fault injection",
    text="12 Coq theorems: every faulting cycle, watchdog timeout and simulation fault latches the fault; a faulted runtime refuses any number of later cycles without any driver call or state change; the FaultDecision table; every well-typed safe-state entry reads back from the image; the safe image is delivered to every driver whatever the drivers answer; the old stop-at-first-error loop is refuted by a witness. Faults are injected at every statement index, in driver reads/writes (k-th call), by watchdog and simulation fault, for all policy combinations.",
    note="Same model and harness as C07 (Model/Cycle.v, harness/src/bin/c07.rs); scheduler-thread fault branches (scheduler.rs) are not modelled here (see C20)."),
+ "C14": dict(cat="proof", tech="machine-checked proof in Coq + extracted-model/implementation correspondence through a guarded hook",
+   text="6 Coq theorems: every position an editor can send (line, UTF-16 column, clamped past end of line) resolves to the same character boundary in the server's position_to_offset as in the editor's buffer; hence after every notification of every change history (incremental, full, multi-change) the server's text equals the editor's; offset->position->offset is the identity on every character boundary; the char-counting variant (the code before the repair) is refuted by a witness. Tied to trust-lsp by the --verif-exec hook (real apply_content_changes, position_to_offset, offset_to_position, ServerState open/update) on generated Unicode histories, with an independent Python UTF-16 editor as a third opinion.",
+   note="Hook feature verif_hooks in trust-lsp; JSON-RPC transport glue not exercised over stdio."),
 }
 REASON_TODO = "check not built yet (work in progress; see DESIGN.md §5 order of work)"
 NA = {}
